@@ -149,8 +149,9 @@ def run(ctx):
              "non-existing / hop-on-a-non-document / overlapping forms, every argument order for sets of at most three; "
              "non-trivial = the paths denote at least one location; distinct = distinct (query, record)",
         assumptions=["records are JSON objects", "redact is reached through a query that evaluates to true",
-                     "theorems are partial: one argument at a time, json() hops with at most one match in front of each hop; "
-                     "argument lists and xml() hops are covered by the oracle on the implementation only"])
+                     "theorems: any list of arguments in any order (C15_several_paths, C15_several_arguments, *_any_order), json() hops with at most "
+                     "one match in front of each hop (judged on the original record); xml() hops, pieces ending in a descent and a wildcard in "
+                     "front of a hop (recorded finding) are covered by the oracle on the implementation only"])
 
 
 def replay_known(ctx):
